@@ -163,6 +163,9 @@ def wl_r2c(ctx, idx, rng):
     rank = int(rng.integers(1, 5)) if N <= 512 else int(rng.integers(1, 3))
     axis = int(rng.integers(-rank, rank))
     shape = [int(rng.integers(1, 4)) for _ in range(rank)]
+    if rank > 1 and rng.random() < 0.08:
+        # an empty axis other than the converted one (e.g. every channel masked away): only the shape/dtype rules can be judged
+        shape[int(rng.integers(rank))] = 0
     shape[axis] = N
     x = make_input(rng, tuple(shape), axis, dtype, kind)
     if rng.random() < 0.3 and x.ndim > 1:
